@@ -35,6 +35,9 @@ type job struct {
 	kind, tags, args string
 }
 
+// covHook writes coverage data when the harness is built for a coverage audit (tag c08cov)
+var covHook = func() {}
+
 var (
 	out   *bufio.Writer
 	outMu sync.Mutex
@@ -82,6 +85,7 @@ func failedOuts(kind string, cls int) string {
 func parent(a lib.Args) {
 	w := lib.NewWriter(a.Out)
 	defer w.Close()
+	fmt.Println("NOTE " + notCovered)
 	exe, err := os.Executable()
 	if err != nil {
 		panic(err)
@@ -268,6 +272,7 @@ func child(a lib.Args) {
 	}
 	sort.Strings(ts)
 	note("time per kind: " + strings.Join(ts, " "))
+	covHook()
 	fmt.Fprintf(out, "DONE\n")
 	out.Flush()
 }
